@@ -11,6 +11,7 @@ import os
 from sim.core import common
 
 SCHEMA = {
+    "mixed": {"foo": "INT", "Bar": "INT", "BAZ": "TEXT"},
     "x": {"a": "INT", "b": "INT"},
     "y": {"b": "INT", "c": "INT"},
     "z": {"a": "INT", "c": "TEXT"},
@@ -39,6 +40,9 @@ SCHEMA_QUERIES = [
     "SELECT x.a FROM x LEFT JOIN y ON x.b = y.b WHERE y.c IS NULL",
     "SELECT a FROM x WHERE a = (SELECT MAX(a) FROM z)",
     "SELECT -a, a * (b + 2) / 3, a % 2, NOT a > b FROM x",
+    "SELECT * FROM mixed",
+    "SELECT m.*, x.a FROM mixed AS m JOIN x ON x.a = m.foo",
+    "SELECT foo, Bar, BAZ FROM mixed WHERE Bar > 1",
 ]
 
 GENERAL = [
@@ -303,6 +307,7 @@ def optimizer_fixture_queries(max_len=600):
 
 
 FIXTURE_SCHEMA = {
+    "mixed": {"foo": "INT", "Bar": "INT", "BAZ": "TEXT"},
     "x": {"a": "INT", "b": "INT"},
     "y": {"b": "INT", "c": "INT"},
     "z": {"b": "INT", "c": "INT"},
